@@ -118,6 +118,10 @@ pub enum EOp {
     Retarget(u8, bool),
     /// point fd 1 / fd 2 at /dev/null (a character device that is not a terminal)
     RetargetNull(u8),
+    /// set (`Some`) or remove (`None`) an environment variable that is NOT one of the six the
+    /// decision depends on: a look-alike (`no_color`, `FORCE_COLOR`, `CLICOLOR_FORCED`), a CI vendor
+    /// variable, or a name harvested from the decision code.  It must decide nothing.
+    Decoy(String, Option<String>),
     Choice(Sk),
     AutoCurrent(Sk),
     NewAuto(Sk),
@@ -164,6 +168,8 @@ struct Model {
     fd_tty: [bool; 2],
     /// what fd 1 / fd 2 point at: 0 the regular file, 1 the pty, 2 /dev/null
     fd_kind: [u8; 2],
+    /// bystander variables currently set (they decide nothing; kept for reports and for reset)
+    decoys: Vec<(String, String)>,
 }
 
 impl Model {
@@ -464,6 +470,10 @@ impl World<'_> {
                 Some(v) => format!("{k}={v:?}"),
             })
             .collect();
+        let mut vars = vars;
+        for (k, v) in &self.m.decoys {
+            vars.push(format!("[bystander {k}={v:?}]"));
+        }
         format!(
             "global={:?} {} fd1={} fd2={}",
             choice_of(self.m.global),
@@ -476,6 +486,9 @@ impl World<'_> {
     fn reset(&mut self) {
         for v in VARS {
             std::env::remove_var(v);
+        }
+        for (k, _) in std::mem::take(&mut self.m.decoys) {
+            std::env::remove_var(k);
         }
         ColorChoice::Auto.write_global();
         self.fds.retarget(1, false);
@@ -502,6 +515,20 @@ impl World<'_> {
                 std::env::remove_var(VARS[*i]);
                 self.m.vars[*i] = None;
                 self.probe("op_unsetenv");
+            }
+            EOp::Decoy(name, value) => {
+                if VARS.contains(&name.as_str()) {
+                    return Ok(());
+                }
+                self.m.decoys.retain(|(k, _)| k != name);
+                match value {
+                    Some(v) => {
+                        std::env::set_var(name, v);
+                        self.m.decoys.push((name.clone(), v.clone()));
+                    }
+                    None => std::env::remove_var(name),
+                }
+                self.probe("op_bystander_variable");
             }
             EOp::Global(c) => {
                 choice_of(*c).write_global();
@@ -566,7 +593,7 @@ impl World<'_> {
     fn step(&mut self, op: &EOp) -> Result<(), EViolation> {
         self.hash.str(&format!("{op:?}"));
         match op {
-            EOp::Set(..) | EOp::Unset(..) | EOp::Global(..) | EOp::Clap(..) | EOp::Retarget(..) | EOp::RetargetNull(..) => {
+            EOp::Set(..) | EOp::Unset(..) | EOp::Global(..) | EOp::Clap(..) | EOp::Retarget(..) | EOp::RetargetNull(..) | EOp::Decoy(..) => {
                 self.change(op)?;
                 let w = self.world_str();
                 self.note(format!("{op:?}  => world: {w}"));
@@ -1081,6 +1108,26 @@ pub fn harvested() -> &'static Vec<String> {
     })
 }
 
+/// Bystander variable names: case variants and near misses of the six, colour conventions of other
+/// ecosystems, CI vendors' variables.
+const DECOYS: [&str; 30] = [
+    "no_color", "clicolor_force", "clicolor", "term", "ci", "colorterm", "No_Color", "Term", "NO_COLOUR", "NOCOLOR", "CLICOLOR_FORCED", "CLI_COLOR",
+    "FORCE_COLOR", "COLOR", "COLORS", "TERM_PROGRAM", "COLORFGBG", "GITHUB_ACTIONS", "TF_BUILD", "TEAMCITY_VERSION", "JENKINS_URL", "BUILD_NUMBER",
+    "TRAVIS", "CIRCLECI", "GITLAB_CI", "APPVEYOR", "CODEBUILD_BUILD_ID", "CONTINUOUS_INTEGRATION", "CI_NAME", "TERMINFO",
+];
+
+/// Names of environment variables the decision code mentions other than the six: harvested
+/// literals that look like variable names.
+fn decoy_names() -> Vec<String> {
+    let mut v: Vec<String> = DECOYS.iter().map(|s| s.to_string()).collect();
+    for w in harvested() {
+        if w.len() >= 2 && w.chars().all(|c| c.is_ascii_uppercase() || c.is_ascii_digit() || c == '_') && w.chars().any(|c| c.is_ascii_uppercase()) && !VARS.contains(&w.as_str()) && !v.contains(w) {
+            v.push(w.clone());
+        }
+    }
+    v
+}
+
 fn gen_value(rng: &mut Rng, var: usize) -> String {
     // biased to the values the property's cross product lists for this variable
     let listed: &[&str] = match var {
@@ -1113,7 +1160,16 @@ fn gen_change(rng: &mut Rng) -> EOp {
             let v = rng.below(6);
             EOp::Set(v, gen_value(rng, v))
         }
-        9..=12 => EOp::Unset(rng.below(6)),
+        9..=11 => EOp::Unset(rng.below(6)),
+        12 => {
+            let names = decoy_names();
+            let name = rng.pick(&names).clone();
+            if rng.chance(1, 3) {
+                EOp::Decoy(name, None)
+            } else {
+                EOp::Decoy(name, Some((*rng.pick(&["1", "true", "0", "", "dumb", "xterm-256color"])).to_string()))
+            }
+        }
         13..=15 => EOp::Global(rng.below(4) as u8),
         16 => EOp::Clap(match rng.below(5) {
             0 => None,
@@ -1179,6 +1235,7 @@ fn op_json(op: &EOp) -> Value {
     match op {
         EOp::Set(i, v) => json!({"op": "setenv", "var": VARS[*i], "value": v}),
         EOp::Unset(i) => json!({"op": "unsetenv", "var": VARS[*i]}),
+        EOp::Decoy(n, v) => json!({"op": "bystander_variable", "name": n, "value": v}),
         EOp::Global(c) => json!({"op": "write_global", "choice": format!("{:?}", choice_of(*c))}),
         EOp::Clap(v) => json!({"op": "clap_flag", "value": v}),
         EOp::Retarget(fd, tty) => json!({"op": "retarget_fd", "fd": fd, "to": if *tty { "pty" } else { "file" }}),
@@ -1212,6 +1269,7 @@ fn op_from(v: &Value) -> Result<EOp, String> {
     Ok(match s("op")? {
         "setenv" => EOp::Set(var()?, s("value")?.to_string()),
         "unsetenv" => EOp::Unset(var()?),
+        "bystander_variable" => EOp::Decoy(s("name")?.to_string(), v.get("value").and_then(|x| x.as_str()).map(|x| x.to_string())),
         "write_global" => EOp::Global(choice(s("choice")?)?),
         "clap_flag" => EOp::Clap(v.get("value").and_then(|x| x.as_str()).map(|x| x.to_string())),
         "retarget_fd" if v.get("to").and_then(|x| x.as_str()) == Some("/dev/null") => EOp::RetargetNull(v.get("fd").and_then(|x| x.as_u64()).unwrap_or(1) as u8),
@@ -1358,6 +1416,39 @@ fn sweep(child: &mut Child, seed: u64) -> (u64, Option<(Vec<EOp>, EViolation)>) 
     // dictionary pass: every variable x every dictionary word (the fixed list plus the literals
     // harvested from the decision code) x {terminal, not a terminal}, everything else unset,
     // global Auto: the decision for every stream kind and every probe against the model
+    // bystander pass: every look-alike / vendor / harvested variable name, set to a truthy and to a
+    // "dumb" value, with the six variables in three base configurations, on a terminal and on a
+    // file: the decision and every probe must be what they are without the bystander
+    for name in decoy_names() {
+        for value in ["1", "dumb"] {
+            for base in 0..3usize {
+                for tty in [true, false] {
+                    let mut ops = vec![EOp::Global(0)];
+                    for i in 0..VARS.len() {
+                        ops.push(match (base, i) {
+                            (1, 3) => EOp::Set(3, "xterm-256color".into()),
+                            (2, 2) => EOp::Set(2, "1".into()),
+                            _ => EOp::Unset(i),
+                        });
+                    }
+                    ops.push(EOp::Decoy(name.clone(), Some(value.to_string())));
+                    ops.push(EOp::Retarget(1, tty));
+                    ops.push(EOp::Retarget(2, tty));
+                    let kinds: &[Sk] = if tty { &[Sk::PtyFile, Sk::Stdout, Sk::StderrLock] } else { &[Sk::TmpFile, Sk::Vec, Sk::NullFile, Sk::Stderr] };
+                    for k in kinds {
+                        ops.push(EOp::Choice(*k));
+                    }
+                    ops.push(EOp::Query);
+                    ops.push(EOp::Decoy(name.clone(), None));
+                    count += 1;
+                    let r = child.run_history(&ops, false);
+                    if let Some(v) = r.violation {
+                        return (count, Some((ops, v)));
+                    }
+                }
+            }
+        }
+    }
     let mut words: Vec<String> = VALUES.iter().map(|s| s.to_string()).collect();
     words.extend(harvested().iter().cloned());
     // derived words: a value that merely starts with, ends with or contains a special word is not
